@@ -1099,14 +1099,17 @@ func checkPar(r *Run, inst int, o *probe.Out, byID map[string][]*call) []Finding
 			}
 		}
 		kind := s.Dec[eid]
-		if kind == probe.Fail || kind == probe.Panic {
+		if kind == probe.Fail || kind == probe.Panic || kind == probe.Goexit {
 			if !failedItem[k] {
 				anyFail = true
 				if len(es) > 0 {
-					if kind == probe.Fail {
+					switch kind {
+					case probe.Fail:
 						wantErrs = append(wantErrs, "err:"+eid)
-					} else {
+					case probe.Panic:
 						wantErrs = append(wantErrs, "panic:"+eid)
+					default:
+						wantErrs = append(wantErrs, "goexit")
 					}
 				}
 			}
